@@ -209,6 +209,77 @@ func TestExhaustiveSmallScope(t *testing.T) {
 	}
 }
 
+// Each right defaults separately: an administrator with exactly one right
+// empty gets '*' for that one and keeps the other as written. Every right string
+// of the small scope is installed in one column with the other column empty,
+// created and updated, admin and not.
+func TestAdminDefaultsPerRight(t *testing.T) {
+	L, M := 4, 4
+	if evid.Thorough() {
+		L, M = 5, 5
+	}
+	rights := enumerate("aB+*/;", L)
+	paths := enumerate("aAb/", M)
+	const W = 16
+	var wg sync.WaitGroup
+	var mu sync.Mutex
+	var first *pairCase
+	var evals, nt int64
+	for w := 0; w < W; w++ {
+		wg.Add(1)
+		go func(w int) {
+			defer wg.Done()
+			name := fmt.Sprintf("c16adm%d", w)
+			var le, ln int64
+			for i := w; i < len(rights); i += W {
+				r := rights[i]
+				for variant := 0; variant < 4; variant++ {
+					admin := variant < 2
+					inPull := variant%2 == 0
+					pull, push := r, ""
+					if !inPull {
+						pull, push = "", r
+					}
+					u := install(name, pull, push, admin, i%3 != 0)
+					for _, p := range paths {
+						for col := 0; col < 2; col++ {
+							rr, ar, colName := pull, auth.PullRight, "pull"
+							if col == 1 {
+								rr, ar, colName = push, auth.PushRight, "push"
+							}
+							want := refmodel.Permits(rr, admin, p)
+							got := u.ValidatePermission(p, ar)
+							le++
+							if admin && rr == "" {
+								ln++ // the defaulted column of an administrator
+							}
+							if got != want {
+								mu.Lock()
+								if first == nil {
+									first = &pairCase{Right: rr, Path: p, Admin: admin, Column: colName, History: [][2]string{{pull, push}}, Got: got, Want: want}
+								}
+								mu.Unlock()
+								return
+							}
+						}
+					}
+				}
+			}
+			auth.Del(name)
+			atomic.AddInt64(&evals, le)
+			atomic.AddInt64(&nt, ln)
+		}(w)
+	}
+	wg.Wait()
+	evid.Eval(evals)
+	evid.NontrivialN(nt)
+	evid.ClassN("admin-default pairs (one column empty)", nt)
+	if first != nil {
+		evid.Violation(t, "admin-default", first, "user (admin=%v pull/push=%q): right %q on path %q column %s: ValidatePermission=%v, reference=%v",
+			first.Admin, first.History, first.Right, first.Path, first.Column, first.Got, first.Want)
+	}
+}
+
 // Documented examples from docs/config.md §3.2 — the anchor that the reference
 // matcher itself reads the guide correctly.
 func TestReferenceMatchesGuideExamples(t *testing.T) {
